@@ -40,10 +40,47 @@ class UnitResult:
     pass
 
 
+def assumed_functions():
+    return load_json(os.path.join(CONTRACTS, 'assumed_functions.json'), [])
+
+
+def assumed_function_hash(repo_root, file, path):
+    import hashlib, rustscan
+    fp = os.path.join(repo_root, file)
+    rf = rustscan.RustFile(fp, open(fp).read())
+    it = rf.find(path)[-1]
+    return hashlib.sha256(' '.join(weave.tokens_of(rf.text[it.start:it.end])).encode()).hexdigest()
+
+
+def changed_assumed_functions(unit_name, repo_root):
+    """real functions of /repo that are NOT under contract but whose behaviour a stub of this unit assumes (contracts/assumed_functions.json):
+    their token sequence is pinned; a function that no longer has it is not what the assumption was written for"""
+    out = []
+    for e in assumed_functions():
+        if unit_name not in e['units'] or not e.get('pinned'):
+            continue
+        try:
+            h = assumed_function_hash(repo_root, e['file'], e['path'])
+        except Exception as ex:
+            out.append('%s :: %s (not found: %s)' % (e['file'], e['path'], ex))
+            continue
+        if h != e['pinned']:
+            out.append('%s :: %s' % (e['file'], e['path']))
+    return out
+
+
 def run_unit(tpath, repo_root, seed, build_dir=BUILD, tag='', canary=None, expand=False):
     """returns dict: status ok|fail|undecided, failures[], functions[], ub, ..."""
     r = {'template': tpath, 'status': 'ok', 'failures': [], 'frontend': [], 'resource': [], 'functions': [], 'wall_s': 0.0,
          'reason': None}
+    ch = changed_assumed_functions(os.path.splitext(os.path.basename(tpath))[0], repo_root)
+    if ch:
+        # a stub of this unit assumes the behaviour of a real function that has changed: nothing the unit proves rests on the
+        # code as it is now - undecided, never silently trusted and never an alarm
+        r['status'] = 'undecided'
+        r['reason'] = 'assumed function changed: %s (a stub of this unit carries an assumed contract written for the pinned text)' % '; '.join(ch)
+        r['ub'] = None
+        return r
     try:
         ub = weave.build_unit(tpath, repo_root, canary=canary)
     except weave.WeaveError as e:
@@ -432,6 +469,13 @@ def write_evidence(prop, tier, seed, obs, trusted, functions, transformations, r
     for t in trusted:
         if t not in tb:
             tb.append(t)
+    # real functions NOT under contract whose behaviour a stub of one of the units assumes: their text is pinned (a change makes the unit undecided)
+    unit_names = set(os.path.splitext(os.path.basename(r_['template']))[0] for r_ in results.values() if r_.get('template'))
+    for e in assumed_functions():
+        if unit_names & set(e['units']):
+            t = 'ASSUMED real function (not under contract, text pinned): %s :: %s - %s' % (e['file'], e['path'], e['why'])
+            if t not in tb:
+                tb.append(t)
     samples = []
     for o in obs:
         if o['kind'] in ('ensures', 'invariant', 'lemma', 'assert') and len(samples) < 8:
@@ -605,6 +649,12 @@ def main(argv):
                 cuts.update(ex.get('cut_pins') or {})
         with open(os.path.join(CONTRACTS, 'pinned_cuts.json'), 'w') as f:
             json.dump(cuts, f, indent=1)
+        af = assumed_functions()
+        for e in af:
+            e['pinned'] = assumed_function_hash(REPO, e['file'], e['path'])
+        if af:
+            with open(os.path.join(CONTRACTS, 'assumed_functions.json'), 'w') as f:
+                json.dump(af, f, indent=1)
         print('pinned %d items' % len(out))
         return 0
     if a.unit:
